@@ -650,8 +650,8 @@ theorem bounds_confine (o : Oracles) (env : Env) (r : Row) (name : String) (lo h
         · exact hc
         · simp [hc] at h
   obtain ⟨h1', h2'⟩ := key
-  cases hv : r.get name <;> simp [cmpOp, Val.cmpLe, hv] at h1' h2'
-  exact ⟨_, rfl, h1', by omega⟩
+  cases hv : r.get name <;> simp [cmpOp, Val.cmpLe, Val.cmpLt, hv] at h1' h2'
+  exact ⟨_, rfl, h1', h2'⟩
 
 /-- a row that passes the PREWHERE of `SqlMainInitPlanner` has its timestamp inside `[from, to)` -/
 theorem windowCond_confines (o : Oracles) (env : Env) (c : Ctx) (r : Row)
